@@ -135,6 +135,36 @@ func (e *Engine) arith(st *State, op token.Token, a, b Value, t types.Type, p to
 		e.declareFun("bits_andnot", []string{"Int", "Int"}, "Int")
 		v := Value{sx(fn, a.T, b.T), t}
 		e.assume("true", e.rangeFact(v.T, t))
+		if op == token.OR {
+			// (x * 2^k) | y == x*2^k + y when 0 <= y < 2^k and x >= 0: the operands have no bit in common
+			for _, pr := range [][2]Value{{a, b}, {b, a}} {
+				inner := pr[0].T
+				wrapOK := true
+				if strings.HasPrefix(inner, "(wrapu ") {
+					// (x * 2^k) mod 2^w is still a multiple of 2^k when w >= k
+					wp := splitArgs(inner[7 : len(inner)-1])
+					wrapOK = false
+					if len(wp) == 2 {
+						if wn, ok := isLit(wp[1]); ok {
+							if _, ok2 := isPow2(wn); ok2 {
+								inner = wp[0]
+								wrapOK = true
+							}
+						}
+					}
+				}
+				if wrapOK && strings.HasPrefix(inner, "(* ") {
+					parts := splitArgs(inner[3 : len(inner)-1])
+					if len(parts) == 2 {
+						if n, ok := isLit(parts[1]); ok {
+							if _, ok2 := isPow2(n); ok2 {
+								e.assume("true", implies(and(sx("<=", "0", parts[0]), sx("<=", "0", pr[1].T), sx("<", pr[1].T, parts[1])), eq(v.T, sx("+", pr[0].T, pr[1].T))))
+							}
+						}
+					}
+				}
+			}
+		}
 		return v
 	}
 	e.fail(p, "operator %s", op)
